@@ -31,9 +31,10 @@ def sample_dist_cfg(rng, kinds=None):
                 # identity encoder: the context itself carries the parameters
                 cfg["ctx"] = int(np.prod(shape)) * (2 if kind == "cond_diag" else 1)
         return cfg
+    res = bool(rng.random() < 0.5)
     return {"dist": "mademog", "features": int(rng.integers(1, 4)), "hidden": int(rng.choice([4, 8])),
             "ctx": int(rng.choice([0, 2])), "comps": int(rng.integers(1, 5)), "blocks": int(rng.choice([1, 2])),
-            "residual": bool(rng.random() < 0.5)}
+            "residual": res, "random_mask": (not res) and bool(rng.random() < 0.6)}
 
 
 def build_dist(cfg, seed=0, pscale=1.0):
@@ -60,7 +61,7 @@ def build_dist(cfg, seed=0, pscale=1.0):
         d = D.MADEMoG(features=cfg["features"], hidden_features=max(cfg["hidden"], cfg["features"]),
                       context_features=(cfg["ctx"] or None), num_blocks=cfg["blocks"],
                       num_mixture_components=cfg["comps"], use_residual_blocks=cfg["residual"],
-                      custom_initialization=True)
+                      random_mask=cfg.get("random_mask", False), custom_initialization=True)
         with torch.no_grad():
             for p in d.parameters():
                 p.add_(torch.randn(p.shape) * 0.3 * pscale)
